@@ -3,12 +3,15 @@
    (H) history level: model/C04_model.v, explicit clock [now] (ns) per request.
    (I) interleaving level: model/C04_race.v, steps = the yield points of the instrumented
        unix_volume.go; every interleaving of a TOUCH/PUT request with a DELETE request.
+   (H) cases carry the cluster configuration as written; model/C04_conf.v = the volume manager's reading of it
+       (which volumes this server mounts, which of them are writable), model/C04_conf_run.v = the evaluator.
    (D) delayed-write level: model/C04_delay.v, the step programs of (I) executed at explicit clock values
        (time passes while the request waits for the Serialize lock, copies data, ...). *)
 From Coq Require Import ZArith NArith List String Bool.
 From AV Require Import lib.Str model.C04_model model.C04_run model.C04_old model.C04_race model.C04_race_run
   proofs.C04_proofs proofs.C04_frame_proofs proofs.C04_spec_proofs proofs.C04_meets_proofs proofs.C04_race_proofs
-  model.C04_delay model.C04_delay_run proofs.C04_delay_proofs.
+  model.C04_delay model.C04_delay_run proofs.C04_delay_proofs
+  model.C04_conf model.C04_conf_run proofs.C04_conf_proofs.
 Import ListNotations.
 Local Open Scope Z_scope.
 
@@ -108,6 +111,80 @@ Theorem C04_model_meets_fresh_clause : forall c hs s prev,
   nondecr prev hs -> fresh_ok c false (obs_run c s hs) = true.
 Proof. exact model_fresh_ok_b. Qed.
 Print Assumptions C04_model_meets_fresh_clause.
+
+(* ---- "only on writable volumes", from the cluster configuration ---- *)
+(* A configured volume is this server's if it has no AccessViaHosts at all or an entry for the server's
+   URL; it is writable for this server unless Volumes.<uuid>.ReadOnly or that entry's ReadOnly is set.
+   AccessViaHosts is a map (MapLike: one entry per URL). *)
+
+(* the boolean reading used by the oracle is this Prop-level reading *)
+Theorem C04_writable_here_reflects : forall host cv,
+  (accessible_b host cv = true <-> cv_access cv = [] \/ exists r, In (host, r) (cv_access cv)) /\
+  (writable_here_b host cv = true <->
+     (cv_access cv = [] \/ exists r, In (host, r) (cv_access cv)) /\
+     ~ (cv_ro cv = true \/ In (host, true) (cv_access cv))).
+Proof. intros host cv. split; [exact (accessible_b_iff host cv)|exact (writable_here_b_iff host cv)]. Qed.
+Print Assumptions C04_writable_here_reflects.
+
+(* the volume manager (makeRRVolumeManager) mounts exactly the server's volumes, in configuration order,
+   and marks a mount read-only exactly when the configuration does not make it writable for this server *)
+Theorem C04_mounts_from_configuration : forall host cvs, Forall MapLike cvs ->
+  Forall2 (fun cv m => m_uuid m = cv_uuid cv /\ Accessible host cv /\ (m_ro m = false <-> WritableHere host cv))
+          (filter (accessible_b host) cvs) (make_mounts host cvs).
+Proof. exact mounts_from_configuration. Qed.
+Print Assumptions C04_mounts_from_configuration.
+
+(* the server built from ANY configuration, its directories planted with anything, after EVERY history of
+   Put / Touch / Get / trash lists (any mount_uuid) / Delete / Untrash / EmptyTrash: the i-th of its volumes,
+   if not writable for this server (read-only at volume level OR in this server's AccessViaHosts entry,
+   whatever other servers may do with it), holds exactly what it held *)
+Theorem C04_not_writable_here_unchanged : forall host cvs c ls hs i cv v,
+  Forall MapLike cvs ->
+  nth_error (filter (accessible_b host) cvs) i = Some cv -> ~ WritableHere host cv ->
+  nth_error (vols (conf_state host cvs ls)) i = Some v ->
+  nth_error (vols (final c (conf_state host cvs ls) hs)) i = Some v.
+Proof. exact not_writable_here_unchanged. Qed.
+Print Assumptions C04_not_writable_here_unchanged.
+
+(* the oracle of the configuration-carrying cases judges with flags derived from the configuration: it is
+   SpecH's step clauses with "read-only" := not writable for this server (also: not this server's volume
+   at all), and fresh_survives over the volumes the server can reach *)
+Theorem C04_conf_spec_b_reflects : forall hc, hspec_b hc = true <-> HSpec hc.
+Proof. exact hspec_b_iff. Qed.
+Print Assumptions C04_conf_spec_b_reflects.
+
+Theorem C04_conf_flags_reflect : forall host cvs,
+  Forall2 (fun cv ro => ro = false <-> WritableHere host cv) cvs (guarded_flags host cvs) /\
+  Forall2 (fun cv k => k = true <-> Accessible host cv) cvs (reach_flags host cvs).
+Proof. intros host cvs. split; [exact (guarded_flags_spec host cvs)|exact (reach_flags_spec host cvs)]. Qed.
+Print Assumptions C04_conf_flags_reflect.
+
+(* so an accepted history never shows a change in the directory of a volume that is not writable here *)
+Theorem C04_conf_spec_guarded_unchanged : forall hc, HSpec hc ->
+  forall i cv, nth_error (hc_conf hc) i = Some cv -> ~ WritableHere (hc_host hc) cv ->
+  forall before st rest pre, hc_steps hc = pre ++ st :: rest ->
+    before = last (map s_after pre) (hc_init hc) ->
+    forall b a, nth_error before i = Some b -> nth_error (s_after st) i = Some a -> ListingEq b a.
+Proof. exact hspec_guarded_unchanged. Qed.
+Print Assumptions C04_conf_spec_guarded_unchanged.
+
+(* the oracle's flags and the manager's flags agree on the server's volumes (the evaluator's two readings
+   of a case, [to_case] for the oracle and [hmodel_case] for the model, describe the same server) *)
+Theorem C04_conf_model_flags_agree : forall host cvs, Forall MapLike cvs ->
+  map m_ro (make_mounts host cvs) = restrict (reach_flags host cvs) (guarded_flags host cvs) /\
+  map m_uuid (make_mounts host cvs) = restrict (reach_flags host cvs) (map cv_uuid cvs) /\
+  map (is_mounted host) cvs = reach_flags host cvs.
+Proof. exact model_flags_agree. Qed.
+Print Assumptions C04_conf_model_flags_agree.
+
+(* regression witness about a VARIANT manager only (writable set from the volume-level flag alone) *)
+Theorem C04_variant_cfg_level_writables_refuted :
+  exists host cvs c ls hs cv v,
+    Forall MapLike cvs /\ nth_error (filter (accessible_b host) cvs) 0 = Some cv /\ ~ WritableHere host cv /\
+    nth_error (vols (variant_state host cvs ls)) 0 = Some v /\
+    nth_error (vols (final c (variant_state host cvs ls) hs)) 0 <> Some v.
+Proof. exact variant_cfg_level_writables_refuted. Qed.
+Print Assumptions C04_variant_cfg_level_writables_refuted.
 
 (* ================= (I) ================= *)
 Local Close Scope Z_scope.
